@@ -11,7 +11,7 @@ export GOFLAGS=-mod=mod GOPROXY=off GOSUMDB=off GOTOOLCHAIN=local
 wt=/tmp/wtv-$(echo "$name" | tr 'A-Z' 'a-z')
 git -C /repo worktree remove --force "$wt" 2>/dev/null
 git -C /repo worktree add -q --detach "$wt" HEAD || exit 2
-trap 'git -C /repo worktree remove --force "$wt"; go clean -cache >/dev/null 2>&1 || true' EXIT
+trap 'git -C /repo worktree remove --force "$wt"' EXIT
 demo_rel=$(sed -n 1p "$src/demo_path.txt" | tr -d '\r' | awk '{print $1}')
 demo_file=$(ls "$src"/*_test.go | head -1)
 runcmd=$(grep -m1 -o 'go test.*' "$src/demo_path.txt")
